@@ -9,6 +9,8 @@ import (
 	"strings"
 
 	"github.com/gittuf/gittuf/internal/cache"
+	"github.com/gittuf/gittuf/internal/attestations"
+	"github.com/gittuf/gittuf/internal/signerverifier/dsse"
 	zzmem "github.com/gittuf/gittuf/internal/zzmem"
 	verif "github.com/gittuf/gittuf/internal/zzverif"
 	"github.com/gittuf/gittuf/pkg/githash"
@@ -150,6 +152,21 @@ func zz16Setup(start, op int) (*zzWorld, func() error) {
 		}
 		tip := w.S.Ref(rsl.Ref)
 		return w, func() error { return rsl.NewAnnotationEntry([]githash.Hash{tip}, true, "m").Commit(w.S, true) }
+	case 4: // automatic skip of the entries a history rewrite left behind (established log only)
+		if start == 0 {
+			zzMust(w.zzStageAndApply(spec, w.zzBuildState(spec, []int{0}, []int{0}), 0))
+			w.zzPush(zzMain, 0, 1, false)
+		}
+		w.zzPush(zzMain, 0, 2, false)
+		w.zzPushOn(zzMain, 0, 3, nil) // rewrite: an unrelated root commit
+		w.S.Signer = 0
+		return w, func() error { return rsl.SkipAllInvalidReferenceEntriesForRef(w.S, zzMain, true) }
+	case 5: // record an authorization: load the attestations, add one, commit them
+		if start == 2 {
+			// established repository that already has attestations
+			zzMust(zz16Attest(w, "refs/heads/other"))
+		}
+		return w, func() error { return zz16Attest(w, zzMain) }
 	default: // persistent cache commit
 		if start == 0 {
 			zzMust(w.zzStageAndApply(spec, w.zzBuildState(spec, []int{0}, []int{0}), 0))
@@ -158,9 +175,38 @@ func zz16Setup(start, op int) (*zzWorld, func() error) {
 	}
 }
 
+// zz16Attest records a reference authorization for ref with the real
+// attestations API (load, set, commit with an RSL entry).
+func zz16Attest(w *zzWorld, ref string) error {
+	from := githash.ZeroHash.String()
+	to := w.zzTree(9).String()
+	statement, err := attestations.NewReferenceAuthorizationForCommit(ref, from, to)
+	if err != nil {
+		return err
+	}
+	env, err := dsse.CreateEnvelope(statement)
+	if err != nil {
+		return err
+	}
+	zzSignEnv(env, 1)
+	cur, err := attestations.LoadCurrentAttestations(w.S)
+	if err != nil {
+		return err
+	}
+	if err := cur.SetReferenceAuthorization(w.S, env, ref, from, to); err != nil {
+		return err
+	}
+	w.S.Signer = 0
+	return cur.Commit(w.S, "authorize", true, true)
+}
+
 func HarnessC16Fault() {
-	start := verif.Concrete(verif.Choice("start", 2))
-	op := verif.Concrete(verif.Choice("op", 4)) // the operations the property lists (cache commits are not among them)
+	op := verif.Concrete(verif.Choice("op", 6)) // the operations the property lists (cache commits are not among them: op 6)
+	nstart := 2
+	if op == 5 {
+		nstart = 3 // empty repository, established repository, established repository with attestations
+	}
+	start := verif.Concrete(verif.Choice("start", nstart))
 
 	// the uninterrupted run
 	ref, run := zz16Setup(start, op)
@@ -238,7 +284,7 @@ func zz16Verdict(w *zzWorld) string {
 // verdict of the branch must be the one from before or the one from after the
 // operation.
 func HarnessC16Crash() {
-	op := verif.Concrete(verif.Choice("op", 4))
+	op := verif.Concrete(verif.Choice("op", 6))
 	// established repository only: verdicts need a policy and a recorded branch
 	ref, run := zz16Setup(1, op)
 	before := zz16Verdict(ref)
